@@ -228,7 +228,7 @@ pub fn check_term_at(ctx: &mut Ctx, e: &E, inserts: &[E], cutoffs: &[usize], amo
             }
             ctx.count(if got.is_some() { "shifts-defined" } else { "shifts-undefined" });
             // law: fails exactly when a free variable lies in [cutoff, cutoff - amount)
-            let should_fail = amount < 0 && fv0.iter().any(|j| *j >= cutoff && (*j as i64) < cutoff as i64 - amount);
+            let should_fail = amount < 0 && fv0.iter().any(|j| *j >= cutoff && (*j as i128) < cutoff as i128 - amount as i128);
             if should_fail != got.is_none() {
                 viol(ctx, "law:shift-failure-condition", &format!("signed_shift(cutoff {cutoff}, amount {amount}) {} although free variables are {fv0:?}", if got.is_none() { "failed" } else { "succeeded" }), e);
                 return;
@@ -247,7 +247,7 @@ pub fn check_term_at(ctx: &mut Ctx, e: &E, inserts: &[E], cutoffs: &[usize], amo
                 }
                 // law: down after up is the identity
                 let gt = to_gram(&g);
-                let back = guard(|| signed_shift(&gt, cutoff, -(amount as isize)).map(|x| mirror(&x)));
+                let back = guard(|| signed_shift(&gt, cutoff, (amount as isize).wrapping_neg()).map(|x| mirror(&x)));
                 if back.as_ref().ok() != Some(&Some(e.clone())) {
                     viol(ctx, "law:down-after-up", &format!("shifting up by {amount} and down again (cutoff {cutoff}) does not give the term back: {}", back.map(|b| show_opt(&b)).unwrap_or_default()), e);
                     return;
@@ -333,7 +333,8 @@ pub fn random_db_term(r: &mut Rng, depth: usize, budget: &mut usize, binders: us
         5 | 6 => {
             // mostly small groups, sometimes large ones (4-8 definitions)
             let n = if r.chance(1, 5) { 4 + r.usize(5) } else { 1 + r.usize(3) };
-            let defs = (0..n).map(|i| (format!("d{i}"), random_db_term(r, d, budget, binders + n), random_db_term(r, d, budget, binders + n))).collect();
+            // binder names are carried through unchanged and must not matter - `_` included
+            let defs = (0..n).map(|i| (if r.chance(1, 6) { "_".to_owned() } else { format!("d{i}") }, random_db_term(r, d, budget, binders + n), random_db_term(r, d, budget, binders + n))).collect();
             E::Let(defs, bx(random_db_term(r, d, budget, binders + n)))
         }
         7 => E::Neg(bx(random_db_term(r, d, budget, binders))),
@@ -403,7 +404,8 @@ impl Prop for C11P {
                         j /= atoms.len() as u64;
                     }
                     let body = parts.pop().unwrap();
-                    let defs = (0..n).map(|k| (format!("d{k}"), parts[2 * k].clone(), parts[2 * k + 1].clone())).collect();
+                    // every 5th group has a definition named `_` (names must not matter)
+                    let defs = (0..n).map(|k| (if i % 5 == 4 && k as u64 == (i / 5) % n as u64 { "_".to_owned() } else { format!("d{k}") }, parts[2 * k].clone(), parts[2 * k + 1].clone())).collect();
                     let e = E::Let(defs, bx(body));
                     ctx.nontrivial(hash_str(&e.show()));
                     ctx.count(if n == 2 { "groups-of-2" } else { "groups-of-3" });
@@ -431,7 +433,7 @@ impl Prop for C11P {
                         }
                     }
                 };
-                let defs: Vec<(String, E, E)> = (0..n).map(|k| (format!("d{k}"), atom(&mut r), atom(&mut r))).collect();
+                let defs: Vec<(String, E, E)> = (0..n).map(|k| (if r.chance(1, 8) { "_".to_owned() } else { format!("d{k}") }, atom(&mut r), atom(&mut r))).collect();
                 let mut e = E::Let(defs, bx(atom(&mut r)));
                 for b in 0..under {
                     e = if r.chance(1, 2) { E::Lam(format!("w{b}"), false, bx(E::Type), bx(e)) } else { E::Pi(format!("w{b}"), r.chance(1, 4), bx(atom(&mut r)), bx(e)) };
@@ -458,7 +460,9 @@ impl Prop for C11P {
                 // the exhaustive ranges, and inserted terms with binders of their own
                 let big = |r: &mut Rng| -> usize { [4usize, 5, 7, 12, 31, 64, 255, 256, 1000, 65_536][r.usize(10)] };
                 let cutoffs = [big(&mut r), r.usize(12)];
-                let amounts = [big(&mut r) as i64, -(big(&mut r) as i64), (1i64 << 33) + r.below(5) as i64, -(r.below(9) as i64) - 4, 4 + r.below(9) as i64];
+                // negative extremes too (the positive ones would overflow the indices themselves, which the
+                // unchanged code does not promise to survive)
+                let amounts = [big(&mut r) as i64, -(big(&mut r) as i64), (1i64 << 33) + r.below(5) as i64, -(r.below(9) as i64) - 4, 4 + r.below(9) as i64, i64::MIN + r.below(3) as i64, -(1i64 << 62) - r.below(7) as i64];
                 let indices = [big(&mut r), 4 + r.usize(9)];
                 let shifts = [big(&mut r), 2 + r.usize(6)];
                 let mut big_ins = vec![];
